@@ -392,8 +392,8 @@ void World::opUnary(const Step &s)
     std::vector<size_t> ca = edgesWhere([&](const EdgeSlot &e) {
         if (e.forest < 0 || !forests[e.forest].alive) return false;
         FKind k = forests[e.forest].kind();
-        // KF-C05-1: DIST_INC on relation forests (probe plans only)
-        if (which == 0 && forests[e.forest].spec.rel && s.a[5] != 999) return false;
+        // KF-C05-1: DIST_INC of an identity-reduced relation (probe plans only)
+        if (which == 0 && forests[e.forest].spec.rel && forests[e.forest].spec.red == 2 && s.a[5] != 999) return false;
         if (which == 0) return k == FK_MTI || k == FK_EVP;
         return k == FK_MTI || k == FK_MTR || k == FK_EVP;
     });
@@ -413,7 +413,7 @@ void World::opUnary(const Step &s)
     ForRT &FR = forests[ri];
     EdgeSlot* res = newEdge(s.client, ri);
     { static const char* un[] = { "DIST_INC", "user:abs", "user:2x+1", "user:isOdd" };
-      desc << en(*res) << " = " << un[which] << "(" << en(A) << ") in " << fn(ri); }
+      desc << en(*res) << " = " << un[which] << "(" << en(A) << " from " << fn(A.forest) << ") in " << fn(ri); }
     res->tab = A.tab;
     res->oracle = A.oracle;
     for (Val &x : res->tab.v) {
